@@ -345,7 +345,37 @@ func dispatchPart(c *vf.Ctx, u *refsmb.Universe) {
 			}
 		}
 	}
+	// encoding direction: the header is emitted as ITS fields say — every command code in Header.Command, whatever
+	// command structure is attached (a relay re-labels a body; a caller attaches a zero-value structure)
+	for code := 0; code < 256; code++ {
+		for _, reply := range []bool{false, true} {
+			m := message.NewMessage()
+			var body command_interface.CommandInterface = commands.NewEchoRequest()
+			if reply {
+				body = commands.NewEchoResponse()
+				m.Header.Flags |= 0x80
+			}
+			var out []byte
+			var err error
+			p, msg, where := vf.Try(func() {
+				m.AddCommand(body)
+				m.Header.Command = codes.CommandCode(code)
+				out, err = m.Marshal()
+			})
+			c.Case([]byte("msg-marshal-code"), []byte{byte(code), b2b(reply)})
+			c.Check("C03/header/Command/Marshal-emits-the-header-field-whatever-command-is-attached", !p && err == nil && len(out) >= 32 && out[4] == byte(code) && byte(m.Header.Command) == byte(code), func() string {
+				return fmt.Sprintf("Message{Header.Command:%#02x, Command:%T}.Marshal(): byte 4 of the message = %#02x, Header.Command afterwards = %#02x (err=%v panic=%v %s %s)", code, body, at(out, 4), byte(m.Header.Command), err, p, msg, where)
+			})
+		}
+	}
 	c.Sample("dispatch", map[string]any{"codes": 256, "sides": 2, "structures_defined_in_source": len(u.Defined)})
+}
+
+func at(b []byte, i int) byte {
+	if i < len(b) {
+		return b[i]
+	}
+	return 0
 }
 
 func b2b(b bool) byte {
